@@ -219,9 +219,10 @@ class PandasCheckBackend(BaseCheckBackend):
                     .head(self.check.n_failure_cases)["failure_cases"]
                 )
             else:
-                failure_cases = failure_cases.groupby(check_output).head(
-                    self.check.n_failure_cases
-                )
+                # every failure case belongs to the group check_output=False;
+                # grouping by the (index-aligned) check output fails when
+                # index labels repeat
+                failure_cases = failure_cases.head(self.check.n_failure_cases)
         return failure_cases
 
     def postprocess_field(
